@@ -1691,9 +1691,15 @@ write_module_support(ostream &out, ostream *out_h, InterrogateModuleDef *def) {
       }
     } else {
       string value = iman.get_definition();
-      out << "  PyModule_AddStringConstant(module, \"" << name1 << "\", \"" << value << "\");\n";
+      // The definition may contain quotes and backslashes of its own (as in
+      // #define FOO "bar"), so it must be escaped.
+      out << "  PyModule_AddStringConstant(module, \"" << name1 << "\", ";
+      output_quoted(out, 4, value, false);
+      out << ");\n";
       if (name1 != name2) {
-        out << "  PyModule_AddStringConstant(module, \"" << name2 << "\", \"" << value << "\");\n";
+        out << "  PyModule_AddStringConstant(module, \"" << name2 << "\", ";
+        output_quoted(out, 4, value, false);
+        out << ");\n";
       }
     }
   }
